@@ -156,6 +156,33 @@ def permute_sims(sc, perm):
     return s2, inv
 
 
+def _first_difference_class(sc, obs_a, obs_b, caches):
+    """Known-finding class of the earliest differing step inputs of two runs (None = no finding explains them)."""
+    best = None
+    for sim in set(obs_a) | set(obs_b):
+        la, lb = obs_a.get(sim, []), obs_b.get(sim, [])
+        for k in range(max(len(la), len(lb))):
+            a = la[k] if k < len(la) else None
+            b = lb[k] if k < len(lb) else None
+            if a != b:
+                t = (a or b)[0]
+                if best is None or t < best[0]:
+                    best = (t, sim, a, b)
+                break
+    if best is None:
+        return None
+    _, sim, a, b = best
+    if a is None or b is None or a[0] != b[0]:
+        # a step more or less / at another time: judged by the scenario-level class as before
+        return ms.c03_class(dict(sc, cache=caches[0])) or ms.c03_class(dict(sc, cache=caches[1]))
+    keys = {x[:4] for x in set(a[1]) ^ set(b[1])}
+    classes = [ms.c03_conn_class(dict(sc, cache=c), sim, k) for k in keys for c in caches]
+    per_key = [ms.c03_conn_class(dict(sc, cache=caches[0]), sim, k) or ms.c03_conn_class(dict(sc, cache=caches[1]), sim, k) for k in keys]
+    if per_key and all(per_key):
+        return per_key[0]
+    return None
+
+
 def cross_config(sc, rng):
     """lazy x cache x debug x start order, one random schedule each; compared per simulator."""
     vio = []
@@ -200,6 +227,10 @@ def cross_config(sc, rng):
                     if (outcome != base[1]) if both_failed else ((outcome, obs) != base[1:]):
                         # the data-flow findings of C03 are exactly where configurations may differ
                         finding = ms.c03_class(dict(sc, cache=key[1])) or ms.c03_class(dict(sc, cache=base[0][1]))
+                        if finding and outcome == base[1]:
+                            # attribute the difference to a data-flow finding only if the FIRST inputs that differ belong to
+                            # connections that have the finding's feature (findings are properties of a connection)
+                            finding = _first_difference_class(sc, base[2], obs, (key[1], base[0][1])) if True else finding
                         vio.append({"law": "same (time, inputs) sequences for lazy/cache/debug on or off", "scenario": sc, "config_a": base[0], "config_b": key,
                                     "outcome_a": base[1], "outcome_b": outcome, "schedule_seed": seed, "finding": finding,
                                     "differs_for": sorted(k for k in set(base[2]) | set(obs) if base[2].get(k) != obs.get(k))})
